@@ -2572,6 +2572,9 @@ func decodeEthernetFrameFlowRecord(data *[]byte) (SFlowEthernetFrameFlowRecord, 
 	es := SFlowEthernetFrameFlowRecord{}
 	var fdf SFlowFlowDataFormat
 
+	if len(*data) < 32 {
+		return es, errors.New("ethernet frame flow record too small")
+	}
 	*data, fdf = (*data)[4:], SFlowFlowDataFormat(binary.BigEndian.Uint32((*data)[:4]))
 	es.EnterpriseID, es.Format = fdf.decode()
 	*data, es.FlowDataLength = (*data)[4:], binary.BigEndian.Uint32((*data)[:4])
